@@ -423,6 +423,19 @@ func runC02(c *core.Ctx) {
 		}
 		hist = append(hist, fmt.Sprintf("Contains(%d)", target))
 		c.Count("lookups_before_mutations", 1)
+		// ... and a Remove of a value that is not in the tree: it must fail and leave
+		// nothing behind that changes how later mutations rebalance
+		if r.Bool() {
+			absent := -1000000 - r.Intn(50)
+			if r.Bool() {
+				absent = 1 << 40
+			}
+			if t.Remove(absent) {
+				fail("Remove:absent-returned-true", fmt.Sprintf("Remove(%d) of a value that is not in the tree returned true", absent))
+			}
+			hist = append(hist, fmt.Sprintf("Remove(%d)[absent]", absent))
+			c.Count("failed_removes_before_mutations", 1)
+		}
 	}
 	add := func(v int) bool {
 		if present[v] {
